@@ -333,8 +333,12 @@ class LedgerCheck:
                         if pool is not None:
                             ok = pool.place_task(tasks[t], execution_strategy=strategies[k], worker_id=rng.choice([None, worker.id]))
                         else:
-                            if not worker.can_accomodate_strategy(strategies[k]):
+                            # "place": the caller asks first, as WorkerPool does; "place_over": the request goes straight to
+                            # Worker.place_task, whose own refusal (an exception) must leave no trace either
+                            if op == "place" and not worker.can_accomodate_strategy(strategies[k]):
                                 raise Refused()
+                            if op == "place_over":
+                                self.bump("direct_place_task_calls")
                             worker.place_task(tasks[t], strategies[k])
                     except (ValueError, RuntimeError, Refused):
                         ok = False
